@@ -768,7 +768,33 @@ func ruleIntersectionSeededOnce(c *Ctx, rule string) {
 		for _, f := range append([]*ssa.Function{fn}, helperFns(fn, 1)...) {
 			for _, ic := range callsLocal(f, "sets.String).Intersection") {
 				call, ok := ic.(*ssa.Call)
-				if !ok || loopHeaderOf(call) == nil {
+				if !ok {
+					continue
+				}
+				// whether the result is restricted to a set is not decided by that set being empty: an empty set of
+				// node subnets common to the held ips means that no node can route all of them, not that nothing is held
+				if args := callArgs(call); len(args) == 1 {
+					var skipped *ssa.If
+					for _, iff := range controllingIfs(call) {
+						bo, isBo := iff.Cond.(*ssa.BinOp)
+						if !isBo {
+							continue
+						}
+						lc, isCall := bo.X.(*ssa.Call)
+						if !isCall || !nameMatch(calleeName(lc), "sets.String).Len") {
+							continue
+						}
+						if k, isC := constIntVal(bo.Y); !isC || k != 0 {
+							continue
+						}
+						if r := recvOf(lc); r == args[0] || sameAccessOrValue(r, args[0]) {
+							skipped = iff
+						}
+					}
+					n++
+					c.ob(rule, fn, "a restriction to a computed set applies when that set is empty too", call, skipped == nil, "the Intersection is not skipped on `<its argument>.Len() == 0`: an empty set of common node subnets is a result (no node routes all of them), not the absence of a restriction")
+				}
+				if loopHeaderOf(call) == nil {
 					continue
 				}
 				n++
